@@ -82,8 +82,10 @@ func (t *AppendOnlyTree) AddLeaf(tx dbtypes.Txer, blockNum, blockPosition uint64
 	}
 	t.lastIndex++
 	tx.AddRollbackCallback(func() {
-		log.Debugf("decreasing index due to rollback")
-		t.lastIndex--
+		// lastLeftCache has been updated in place by this and possibly later leaves of the rolled back tx,
+		// so decreasing the index is not enough: force the cache to be rebuilt from the DB on the next AddLeaf
+		log.Debugf("invalidating cache due to rollback")
+		t.lastIndex = -2
 	})
 	return nil
 }
